@@ -30,7 +30,7 @@ ASSUMPTIONS = [
     "a frame whose reference reading contains an undefined or not-available code may be rejected (connection reset) or delivered with the defined fields right",
     "after a malformed point the rest of that connection's bytes carry no obligation (the client resets the connection)",
 ]
-PROBES = ["c17.names_do_not_add_up", "c17.partial_record", "c17.long_unknown_frame", "c17.longer_stride_repeated", "c17.declared_count_mismatch", "c17.unknown_type", "c17.unknown_ext_sub", "c17.unknown_cs_sub", "c17.longer_stride", "c17.mutated_len", "c17.mutated_type",
+PROBES = ["c17.same_unknown_type_repeated", "c17.names_do_not_add_up", "c17.partial_record", "c17.long_unknown_frame", "c17.longer_stride_repeated", "c17.declared_count_mismatch", "c17.unknown_type", "c17.unknown_ext_sub", "c17.unknown_cs_sub", "c17.longer_stride", "c17.mutated_len", "c17.mutated_type",
           "c17.mutated_payload", "c17.truncated", "c17.random", "c17.rejected_then_recovered"]
 
 
@@ -66,6 +66,14 @@ def generate(rng, index: int, tier: str) -> dict:
             else:
                 f, k = framegen.frame(rng, gen)
             frames.append(f)
+        if rng.random() < 0.15:
+            # the same unknown type twice in a row (other payloads), right behind a frame of a known kind
+            known = {0x1F, 0x2A, 0x2B, 0x2C, 0x2D, 0x36, 0x37} if gen == 4 else {0x1F, 0xC0}
+            u = rng.choice([x for x in range(256) if x not in known])
+            frames.append(framegen.frame(rng, gen)[0])
+            for _ in range(rng.choice([2, 2, 3])):
+                frames.append(w.frame(w.ADDR_CLIENT, w.ADDR_CONSOLE, rng.randrange(256), u, bytes(rng.randrange(256) for _ in range(rng.choice([0, 3, 6, 8])))))
+            info["same_unknown_type_repeated"] = True
         if rng.random() < 0.15:
             # sweep all 256 type bytes over a few runs
             t = index % 256
@@ -255,6 +263,8 @@ def execute(sc: dict) -> dict:
         probes["c17.partial_record"] = 1
     if info.get("where") == "names":
         probes["c17.names_do_not_add_up"] = 1
+    if info.get("same_unknown_type_repeated"):
+        probes["c17.same_unknown_type_repeated"] = 1
     # 1. nothing beyond what the reference receiver finds
     if len(got) > len(refs):
         V.append(viol("C17.delivered_from_malformed", {"reference_frames": len(refs), "delivered": len(got), "verdict": verdict,
